@@ -1,10 +1,10 @@
-import IncrVerif.Proofs.MemoH17
+import IncrVerif.Proofs.MemoH19
 /-!
 # C20 over whole histories — `weak_memoize_fn`: table invariant, sharing, scope
 
 Model: `memoCall env m key` (`Engine/Recompute.lean`), the tables `State.memos`, the sweep at the end of
 `stabiliseEnd`, the ownership model `State.aliveSet` (`Engine/Alive.lean`).  Single-call facts: `Props/C20.lean`.
-Helper files: `Proofs/MemoH1.lean` … `MemoH17.lean`.  Histories: `Life.Run env P s s'` (`Proofs/Life3.lean`: API
+Helper files: `Proofs/MemoH1.lean` … `MemoH19.lean`.  Histories: `Life.Run env P s s'` (`Proofs/Life3.lean`: API
 actions run one after the other through `stepAction`, any token tables, ANY OUTCOME — a panic keeps the state of
 the panic point —, the harness's reset of the event log is a step; `Life.run_runStates`: what the harness runs is
 such a history) and `RunI env I A s s'` (the same, every action satisfies `A`, every state reached satisfies `I`).
@@ -42,7 +42,8 @@ K1 `table_invariant_action`, `table_invariant_history`, `table_invariant_init`: 
 K2 `same_key_same_node` (a hit at API level: `ok #n`, no node created, log and everything but `top`/`handles`
    unchanged), `sharing_anchored` (call, any history during which `n` stays anchored — closures may call anything —,
    call again ⟹ same node), `sharing_alive` (the same with "still allocated for whatever reason" in place of
-   "anchored"; closures do not call this key), `released_then_recomputed` (call; history without calls of this key;
+   "anchored"; closures do not call this key), `sharing_trace` (still allocated at every API boundary and no
+   invocation of this key in the trace; closures may call anything), `released_then_recomputed` (call; history without calls of this key;
    `n` no longer allocated at the later call ⟹ that call is a miss: a node created by this very call is returned —
    hence `≠ n` —, the invocation is logged, the new entry is `Produced`), `released_and_swept`.
 K3 `memo_nodes_not_registered` (no entry of any table is in any bind's `allNodesCreatedOnRhs`; in particular not in
@@ -56,13 +57,15 @@ K3 `memo_nodes_not_registered` (no entry of any table is in any bind's `allNodes
   function again and replaces the entry (history `var; memocall m0 1; drophandle n1; memocall m0 1` answers `ok #2`,
   `ok #4` in the model and in the crate).  `released_then_recomputed` is stated accordingly (no stabilise required);
   what the stabilise adds is only that the dead entry is physically removed (`released_and_swept`).
-* the clause "calling … returns that same node WHILE IT IS REFERENCED ANYWHERE" is proved in two forms: anchor form
-  (handles / observers / static parents; no restriction on closures) and allocation form (`aliveSet` at every API
-  boundary; closures must not call the same key).  The gap — allocation form with closures calling the same key —
-  would need "a node that is allocated before and after a `stabilise` is allocated at every point during it".
+* the clause "calling … returns that same node WHILE IT IS REFERENCED ANYWHERE" is proved in three forms: anchor
+  form (handles / observers / static parents; no restriction on closures), allocation form (`aliveSet` at every API
+  boundary; closures must not call the same key) and trace form (`aliveSet` at every API boundary, no invocation note
+  of this key in the trace; no restriction on closures).  The remaining gap — allocation form with closures calling
+  the same key and NO trace hypothesis — needs "a node that is allocated before and after a `stabilise` is allocated
+  at every point during it" (an ownership invariant of the whole drain: not proved).
 
 ## NOT PROVED
-* that gap; values of memo nodes equal the from-scratch evaluation (K3 last clause: `Props/C03Order.lean`'s fragment
+* that gap (closed only under the trace hypothesis of `sharing_trace`); values of memo nodes equal the from-scratch evaluation (K3 last clause: `Props/C03Order.lean`'s fragment
   F1 has no `memoCall` in closures and was not extended; validity only);
 * K3 validity for memo bodies over non-static outer nodes (e.g. a bind's main node: it CAN become invalid, and then
   so do its dependants), for per-key operators and for programs calling `expert::invalidate`;
@@ -107,6 +110,13 @@ theorem table_entry {env : Env} {s : State} (ht : TInv env s) {m : Nat} {tbl : L
   refine ⟨hp.facts.1, hp.facts.2, hp, hs n hk, fun n' h' => ?_⟩
   have := (hs n' h').symm.trans (hs n hk)
   exact Option.some.inj this
+
+/-- The run of the memo body that produced an entry created a block `lo … hi-1` of nodes, ALL of them in the
+top-level scope (whatever the scope of the caller), and the entry is one of them. -/
+theorem produced_nodes_top {env : Env} {s : State} {m : Nat} {key : Int} {n : Nat}
+    (h : Produced env s m key n) :
+    ∃ lo hi, lo ≤ n ∧ n < hi ∧ hi ≤ s.nodes.size ∧ ∀ i, lo ≤ i → i < hi → (s.nodeD i).createdIn = .top :=
+  h.block
 
 /-- After a `stabilise` that returns, every entry of every table names a node that is still allocated. -/
 theorem after_stabilise_entries_alive (env : Env) (tokens : Array Nat) (s s' : State) (r)
@@ -176,6 +186,22 @@ theorem sharing_alive {env : Env} (hok : MemoBodyOK env) (m : Nat) (key : Int) (
   have hal : n ∈ s2.aliveSet := RunI.last (I := fun t => n ∈ t.aliveSet) (fun _ h => h) h3.alive hrun
   obtain ⟨h4, h5⟩ := share_alive hok m key n hb ht1 h1 h3.alive hrun
   exact ⟨call_hit env m key tokens s2 n h4 hal, h5⟩
+
+/-- SHARING, trace form.  A call returned `n`; then any history — bind closures calling any memoised function with
+any key — in every state of which `n` is still allocated (for whatever reason) and the event log shows no
+invocation of `(m, key)` (`memoNote m key`, the `note` event `memo m<m> invoked <key>` every miss logs; the harness
+resets the log before each action, so this reads "no action of the history logged it").  Then a later call with the
+same key answers `ok #n`, creates no node and logs nothing. -/
+theorem sharing_trace (env : Env) (m : Nat) (key : Int) (n : Nat) {s0 s1 s2 : State}
+    (hcall : CallRet env m key s0 n s1)
+    (hrun : RunI env (fun t => n ∈ t.aliveSet ∧ memoNote m key ∉ t.log) (fun _ => True) s1 s2)
+    (tokens : Array Nat) :
+    (stepAction env (.create (.memoCall m key)) tokens).run.run s2 =
+      (.ok (s!"ok #{n}", tokens), { s2 with top := s2.top.push n, handles := n :: s2.handles }) := by
+  obtain ⟨h1, _, h3⟩ := hcall.facts
+  have hal : n ∈ s2.aliveSet :=
+    RunI.last (I := fun t => n ∈ t.aliveSet) (fun _ h => h) h3.alive (hrun.mono fun _ h => h.1)
+  exact call_hit env m key tokens s2 n (share_quiet env m key n h1 hrun) hal
 
 /-- CONVERSE.  A call returned `n`; then a history without calls of `(m, key)` (no API action `create (memoCall m
 key)`, bind closures not calling it); at its end `n` is no longer allocated.  Then a call that returns is a MISS:
@@ -277,6 +303,21 @@ example : exBind = [.create (.var (.int 2)), .create (.bind 0 (.outer 0)), .obse
     rhsNodes (exRun exBind) 0 = [] ∧ (exRun exBind).top = #[0, 2, 4] ∧
     ((exRun exBind).binds[0]?.map (·.rhs)) = some (some 4) ∧
     ((exRun exBind).tryGetValue exEnvH 0).toOption = some (.int 4) := ⟨rfl, by decide +kernel⟩
+
+/-- the hypotheses of `sharing_anchored` hold of a harness run: `var 2; memocall m0 1` (answers `#2`), then
+`set v0 3; observe n1; stabilise; drophandle n0` (node 2 stays in `handles`), then `memocall m0 1`: `ok #2` again -/
+example : exPre = [.create (.var (.int 2)), .create (.memoCall 0 1)] ∧
+    exMid = [.set 0 (.int 3), .observe (.outer 1), .stabilise, .dropHandle (.outer 0)] ∧
+    (stepAction exEnvH (.create (.memoCall 0 1)) #[]).run.run exRs2.s =
+      (.ok (s!"ok #{2}", #[]), { exRs2.s with top := exRs2.s.top.push 2, handles := 2 :: exRs2.s.handles }) :=
+  ⟨rfl, rfl, sharing_anchored exEnvH 0 1 2 exPre_call exMid_run #[]⟩
+
+/-- harness runs are `RunI` histories (the bridge used in the example above) -/
+theorem harness_run_is_history (env : Env) (I : State → Prop) (A : Action → Prop) (as : List Action)
+    (hA : ∀ a ∈ as, A a) (idx : Nat) (rs : RunState)
+    (hI : ∀ k, k < as.length → I (Life.runStates env (as.take (k + 1)) idx rs).s) :
+    RunI env I A rs.s (Life.runStates env as idx rs).s :=
+  RunI.of_runStates env I A as hA idx rs hI
 
 /-- the hypotheses of the K1/K3 theorems hold of this example: `memo_nodes_stay_valid` applies to the history
 `exBind` from the state after its first action -/
